@@ -1,0 +1,8 @@
+//go:build !verif
+
+package dns
+
+import "github.com/hashicorp/go-retryablehttp"
+
+// verifHookClient is a no-op unless the verif build tag is set.
+func verifHookClient(*retryablehttp.Client) {}
